@@ -2,6 +2,7 @@
 
 Everything is constructed, nothing is filtered: for a port of width w the generator builds an
 expression of width w.  All random choices go through Hypothesis draws."""
+import json
 from hypothesis import strategies as st
 
 PORT_NAMES = ["a", "b", "c", "d", "e", "q", "z", "y"]
@@ -336,6 +337,25 @@ class ModGen:
                     bi = d.choice(nb)
                     flipped = d.bool(25)
                     self.buns.append(["g%d" % len(self.buns), bi, False, flipped, None, "ctor"])
+        # bundle instances alike in everything but their name are sometimes written as one multiplication: a, b = 2 * B(...)
+        groups = {}
+        for b in self.buns:
+            if b[5] == "ctor":
+                groups.setdefault(json.dumps(b[1:5]), []).append(b)
+        for g in groups.values():
+            if len(g) >= 2 and d.bool(50):
+                for b in g:
+                    b[5] = "mult"
+                self.feats.add("bundle_insts_by_mult")
+        # ... and an instance whose flip state is the opposite of an otherwise alike earlier one as h.flipped(<that one>)
+        for k, b in enumerate(self.buns):
+            if b[5] != "ctor":
+                continue
+            for a in self.buns[:k]:
+                if a[1] == b[1] and a[2] == b[2] and a[4] == b[4] and bool(a[3]) != bool(b[3]) and d.bool(40):
+                    b[5] = "flipof:" + a[0]
+                    self.feats.add("bundle_inst_flipped_sibling")
+                    break
         # instances
         ninst = d.int(1, o.max_insts)
         targets = [["cell", k] for k in range(len(spec["cells"]))]
